@@ -193,7 +193,12 @@ def st_program(tier2=False, with_mem=True, domains=("sys",), max_sigs=6):
                     hi = (1 << (w - 1)) - 1 if signed else _m(w)
                     keys = draw(st.lists(st.integers(lo, hi), min_size=1, max_size=4, unique=True))
                     cases = [[kv, stmts(targets, avail, depth + 1)] for kv in keys]
-                    out.append(["case", ["s", ts], cases, stmts(targets, avail, depth + 1) if draw(st.booleans()) else None])
+                    test = ["s", ts]
+                    if not signed and draw(st.integers(0, 3)) == 0:
+                        # the complement of an unsigned selector: as wide as the selector in both semantics (the simulator
+                        # truncates the test to the width of the tested expression), so no width divergence can arise
+                        test = ["op", "~", [["s", ts]]]
+                    out.append(["case", test, cases, stmts(targets, avail, depth + 1) if draw(st.booleans()) else None])
             return out
 
         # comb signals form a DAG: comb signal k may read inputs, sync signals and comb signals with a lower index
